@@ -475,6 +475,14 @@ def replay_readers(cex):
                 got2 = pipe.from_files([path])(1.0)[0]
                 if got2.shape != im.shape or not np.allclose(got2, im, atol=1e-5):
                     bad.append({"from_files": f"after write #{k + 1} the provided image is not the image in the file"})
+                # an explicit original_scale that differs from the voxel size in the header (1 nm): it is the override that sets the zoom
+                ov = pipe.from_file(path, original_scale=2.0)(1.0)
+                ref = pipe.from_array(im, original_scale=2.0)(1.0)
+                if ov.shape != ref.shape or not np.allclose(ov, ref, atol=1e-5):
+                    bad.append({"from_file(original_scale=2.0)(1.0) on a file with a 1 nm header": {"shape": list(ov.shape), "want": list(ref.shape)}})
+                ov = pipe.from_file(path, original_scale=0.5)(0.5)
+                if ov.shape != im.shape or not np.allclose(ov, im, atol=1e-5):
+                    bad.append({"from_file(original_scale=0.5)(0.5)": {"shape": list(ov.shape), "want": list(im.shape)}})
         except Exception as e:
             bad.append({"from_file": "raised " + repr(e)[:120]})
     return len(bad) > 0, {"n": len(bad), "examples": bad[:4]}
@@ -533,6 +541,16 @@ def sec_readers(rec, patches=None):
 
         vs = [version(o) for o in (o1, o2, o3)]
         rec.fact(f"readers/path{pi}/each-call-provides-the-image-read-at-that-call", vs == [1.0, 2.0, 3.0], key="C19/readers/stale-file", detail={"versions": vs}, reproduced=True if vs == [1.0, 2.0, 3.0] else replay_readers({})[0])
+        # the explicit original_scale (not the voxel size stored in the file) decides whether and by how much the image is resampled
+        ratio = orig.e / scale.e
+        within = z3.And(ratio - 1 < tol.e, 1 - ratio < tol.e)
+        zooms = [c for c in cf if c[0] == "zoom"]
+        if zooms:
+            rec.query(f"readers/path{pi}/from_file(original_scale=s0): resampled=>s0 outside the tolerance", h, z3.Not(within), key="C19/readers/from_file-scale", replay=replay_readers, nonlinear=True, twin=False)
+            for zi_, zc in enumerate(zooms):
+                rec.query(f"readers/path{pi}/from_file(original_scale=s0): zoom#{zi_}=s0/scale", h, zr(zc[2][0]) == ratio, key="C19/readers/from_file-scale", replay=replay_readers, nonlinear=True, twin=False)
+        else:
+            rec.query(f"readers/path{pi}/from_file(original_scale=s0): unchanged=>s0 within the tolerance", h, within, key="C19/readers/from_file-scale", replay=replay_readers, nonlinear=True, twin=False)
         # batch provider == list of single providers (same zoom decisions and factors)
         same_n = len(outs) == len(single) == 2 and len(ca) == len(cs)
         rec.fact(f"readers/path{pi}/from_arrays-makes-the-same-resampling-decisions-as-single-providers", bool(same_n), key="C19/readers/from_arrays", detail={"zoom_calls": [len(ca), len(cs)]},
